@@ -6,7 +6,7 @@ src=/tmp/mut-$p-$w/_mutant; dst=/verif/seeded/$p-$w
 mkdir -p $dst
 for f in patch.diff demo.c run_demo.sh meta.txt; do [ -f $src/$f ] && cp $src/$f $dst/; done
 # further small sources the demo needs
-for f in $src/*; do [ -f "$f" ] && [ $(stat -c %s "$f") -lt 200000 ] && cp -n "$f" $dst/; done
+for f in $src/* $src/res/*; do [ -f "$f" ] && [ $(stat -c %s "$f") -lt 200000 ] && cp -n "$f" $dst/; done
 /verif/tools/confirm_mutant.sh $dst 2>&1 | tail -4
 checks=${*:-$p}
 /verif/tools/try_mutant.sh $dst/patch.diff quick $checks 2>&1 | grep -v "replays/fixed" | tail -8
